@@ -178,7 +178,7 @@ def ip_header(b, proto, payload_obj):
 
 
 def ip_bytes(f, proto, sip, dip, total, csum):
-  return bytes([0x45]) + be(f["tos"], 1) + be(total, 2) + be(f["id"], 2) + be(f["flags"] * 8192, 2) + be(f["ttl"], 1) \
+  return bytes([0x45]) + be(f["tos"], 1) + be(total, 2) + be(f["id"], 2) + be(f["flags"] * 8192 + f.get("frag", 0), 2) + be(f["ttl"], 1) \
     + be(proto, 1) + be(csum, 2) + sip + dip
 
 
@@ -211,8 +211,7 @@ def ipv4_udp_datagram(b):
   })
 
 
-@unit(P, target=PK + "ipv4:ipv4.hdr/checksum/parse (payload of another protocol, any length)")
-def ipv4_datagram_with_a_raw_payload_of_any_length(b):
+def ipv4_datagram_with_a_raw_payload_of_any_length(b, frag=0):
   """an IPv4 datagram whose payload is not parsed further (protocol outside icmp / igmp / tcp / udp / gre), 0..1480 bytes - the
   EMPTY payload included, where total length == header length (added 2026-09-25 after seeded change C14_9 rejected exactly
   that datagram as malformed)"""
@@ -221,6 +220,11 @@ def ipv4_datagram_with_a_raw_payload_of_any_length(b):
   data = payload_bytes(b, maxlen=1480)
   n = len(data) if b.mode == "conc" else data.length()
   ip, f, sip, dip = ip_header(b, proto, data)
+  # any fragment offset (13 bits; seeded change C03_11 parsed it with a 12-bit mask, so the last fragment at offset 0x1000 looked
+  # unfragmented and was matched on 'transport ports' taken from payload bytes)
+  # (boundary offsets, one unit each: a symbolic 13-bit offset next to the symbolic 3-bit flags leaves the solvers undecided)
+  f["frag"] = frag
+  b.set(ip, "frag", frag)
   e, _, (dst, src) = ether(b, 0x0800, ip)
   total = 20 + n
   return Case(_rt, [e], calls=cs_spec(b), ensures={
@@ -229,8 +233,16 @@ def ipv4_datagram_with_a_raw_payload_of_any_length(b):
     "the_header_parses_again_and_keeps_the_payload_as_bytes":
       lambda res: type(res[1].next) is ipv4 and res[1].next.parsed is True and res[1].next.iplen == total
       and res[1].next.protocol == proto and res[1].next.srcip.toRaw() == sip and res[1].next.dstip.toRaw() == dip
-      and res[1].next.next == data,
+      and res[1].next.next == data and res[1].next.frag == f["frag"] and res[1].next.flags == f["flags"],
   })
+
+
+FRAG_UNITS = {}
+for _fr in (0, 1, 0x0fff, 0x1000, 0x1001, 0x1fff):
+  def _u(b, _fr=_fr):
+    return ipv4_datagram_with_a_raw_payload_of_any_length(b, _fr)
+  _u.__name__ = "ipv4_datagram_with_a_raw_payload_of_any_length" + ("" if _fr == 0 else "_fragment_offset_%#x" % _fr)
+  FRAG_UNITS[_fr] = unit(P, target=PK + "ipv4:ipv4.hdr/checksum/parse (payload of another protocol, any length)")(_u)
 
 
 def _mk_ipv4_options(hl):
